@@ -29,6 +29,37 @@ def proof_oracle(h, i, line, impl, orc):
     return None
 
 
+import math
+
+
+def c11_oracle(h, i, line, impl, orc):
+    """C11: AVL bound on reported height/size; storage reads per lookup with nothing cached."""
+    if line.startswith("reads "):
+        try:
+            cnt, hh = impl.split()
+            cnt = int(cnt)
+            hh = int(hh.split("=")[1])
+        except Exception:
+            return None
+        inner = line.split()[1:]
+        if inner[0] == "imm":
+            inner = inner[2:]
+        op = inner[0]
+        if op in ("get", "has", "gwi", "gbi") and cnt > 2 * hh + 2:
+            return "%s read %d stored nodes, more than 2h+2 = %d" % (op, cnt, 2 * hh + 2)
+        if op in ("proof", "memproof", "nonmemproof") and cnt > 10 * hh + 10:
+            return "%s read %d stored nodes, more than 10h+10 = %d" % (op, cnt, 10 * hh + 10)
+        return None
+    if line.endswith("height") and impl.isdigit():
+        # find the size reported next to it (the generator emits `size` right after `height`)
+        if i + 1 < len(h["lines"]) and h["lines"][i + 1].endswith("size") and (h["impl"][i + 1] or "").isdigit():
+            n = int(h["impl"][i + 1])
+            hh = int(impl)
+            if n > 0 and hh > 1.4405 * math.log2(n + 2) + 1e-9:
+                return "height %d exceeds 1.4405*log2(%d+2)" % (hh, n)
+    return None
+
+
 PROPS = {
     "C01": dict(kind="v1hist", quick_n=1500, thorough_n=4000,
                 profile=Profile(p_hash_read=0.0, check_all_versions=0.5, iters=0.3, big=0.05),
@@ -61,6 +92,20 @@ PROPS = {
                 title="iterator contract"),
     "C10": dict(kind="v1hist", quick_n=1200, thorough_n=6000, gen="c10", oracle=proof_oracle,
                 profile=None, title="export/import fidelity, total importer"),
+    "C15": dict(kind="v1hist", quick_n=1200, thorough_n=6000, oracle=lambda h, i, line, impl, orc: (
+                    "replaying the extracted change sets does not reproduce the versions: " + impl
+                    if line == "replaycs" and not impl.startswith("ok") else None),
+                profile=Profile(changes=0.8, p_savecs=0.3, p_noop_version=0.3, check_all_versions=0.1, p_prune=0.15,
+                                p_loadow=0.05, p_hash_read=0.1, reads_per_version=(0, 2), imm_reads_per_version=(0, 1)),
+                title="change sets"),
+    "C11": dict(kind="v1hist", quick_n=600, thorough_n=3000, gen="c11", oracle=c11_oracle, profile=None,
+                title="balance, rank, read cost"),
+    "C12": dict(kind="v1hist", quick_n=1200, thorough_n=6000,
+                profile=Profile(dump=0.7, p_prune=0.5, p_noop_version=0.35, p_loadow=0.12, p_delfrom=0.05, p_reopen=0.2,
+                                check_all_versions=0.1, p_hash_read=0.0, reads_per_version=(0, 1),
+                                imm_reads_per_version=(0, 1), meta_per_version=(0, 1), nkeys=5,
+                                thrs=[120, 150, 200, 300, 400, 0], caches=[0, 0, 1, 3, 100], empty_out=0.3),
+                title="storage = reachable set"),
     "C14": dict(kind="v1hist", quick_n=1500, thorough_n=4000,
                 profile=Profile(meta_per_version=(2, 5), p_load_old=0.25, p_prune=0.3, p_reopen=0.25,
                                 check_all_versions=0.2, p_noop_version=0.35),
@@ -143,7 +188,9 @@ def run_check(prop, tier, seed, n_override=None):
                 return 1
         proof_broken = broken is not None or proof["obligations"] != proof["discharged"] or bool(proof["grep_gate"])
         n = n_override or (cfg["thorough_n"] if (tier == "thorough" or proof_broken) else cfg["quick_n"])
-        if cfg.get("gen") == "c10":
+        if cfg.get("gen") == "c11":
+            hists = corpus(prop) + v1gen.gen_c11(seed, n)
+        elif cfg.get("gen") == "c10":
             hists = corpus(prop) + v1gen.gen_c10(seed, n)
         else:
             hists = corpus(prop) + v1gen.generate(seed, n, cfg["profile"])
